@@ -107,6 +107,33 @@ func genC11(r *Rand) *VariantCase {
 		st = append(st, p.Stmts[mid:]...)
 		p.Stmts = st
 	}
+	// names for constants of the upper half of the unsigned 32-bit range (masks, MMIO addresses), given directly and as a product:
+	// every decision taken on the magnitude (sign-extended imm8 forms, PUSH imm8, disp8) must be the one taken for the literal
+	if r.Chance(1, 3) {
+		v := Pick(r, []int64{0xfffffff0, 0xffffff80, 0xffffff7f, 0x80000000, 0xffffffff, 0xffff8000, 0xfee00000, 0xfffffffe})
+		lit := fmt.Sprintf("0x%x", v)
+		half := fmt.Sprintf("0x%x", v/2)
+		forms := []string{"\tAND ESP,%s", "\tMOV EAX,[EBP+%s]", "\tPUSH %s", "\tSUB EBX,%s", "\tMOV ECX,%s", "\tDD %s", "\tDD %s/2", "\tCMP EDX,%s", "\tOR DWORD [ESI],%s", "\tMOV [EBX+%s],CL", "\tDD %s-1", "\tADD EAX,%s"}
+		Shuffle(r, forms)
+		var use []PStmt
+		for i, f := range forms[:r.Range(2, 5)] {
+			if v%2 == 0 && i%2 == 1 {
+				use = append(use, PStmt{K: "raw", Text: fmt.Sprintf(f, "WIDE2"), Alt: fmt.Sprintf(f, "("+half+"*2)")})
+			} else {
+				use = append(use, PStmt{K: "raw", Text: fmt.Sprintf(f, "WIDE"), Alt: fmt.Sprintf(f, lit)})
+			}
+		}
+		k := 0
+		for k < len(p.Stmts) && (p.Stmts[k].K == "org" || p.Stmts[k].K == "bits") {
+			k++
+		}
+		st := append([]PStmt{}, p.Stmts[:k]...)
+		st = append(st, PStmt{K: "equ", Label: "WIDE", Text: lit, Tag: "EQU"}, PStmt{K: "equ", Label: "WHALF", Text: half, Tag: "EQU"}, PStmt{K: "equ", Label: "WIDE2", Text: "WHALF*2", Tag: "EQU"})
+		st = append(st, p.Stmts[k:len(p.Stmts)-1]...)
+		st = append(st, use...)
+		st = append(st, p.Stmts[len(p.Stmts)-1])
+		p.Stmts = st
+	}
 	src := p.Source()
 	// inlined variant: every name replaced by its parenthesised defining expression, EQU lines removed
 	dm := map[string]*Expr{}
